@@ -13,7 +13,7 @@ open DI.Py DI.Gen
 /-- `group_by` marks and returns the receiver: its only effect is `self._group_colnames = tuple(colnames)`. -/
 theorem group_by_marks_receiver (truth : Term → Bool) :
     DataFrame_group_by truth =
-      Out.ret [Term.app "setattr" [Term.sym "self", Term.sym "_group_colnames", Term.app "tuple" [Term.sym "colnames"]]]
+      Out.ret [Term.app "setattr" [Term.sym "self", Term.sym "_group_colnames", Term.app "tuple()" [Term.sym "colnames"]]]
         (Term.sym "self") := rfl
 
 /-- the object a `count` call groups. -/
